@@ -12,7 +12,7 @@ RULE = ("conv probe: DATA bodies with limits |body|-1..|body|+1, BDAT chunk sequ
         "256-valued streams with random limits. non-trivial = limited reader and stream containing '.', CR or LF")
 THEOREMS = ["C06_bound_data", "C06_oversize_never_complete", "C06_transparent", "data_monitor_accepts_model",
             "C06_chunk_over_limit", "C06_declared_size_refused", "C06_accepted_chunk_bounded", "C06_no_delivery_over_limit",
-            "C06_accounting_invariant"]
+            "C06_accounting_invariant", "C06_eof_is_sticky"]
 nontrivial = lambda case, ans: (dc.nontrivial_stream(case) and case.split("\t")[1] != "-") if case.startswith('dr') else cc.nontrivial(case, ans)
 signature = lambda case, ans: dc.signature(case, ans) if case.startswith('dr') else cc.signature(case, ans)
 mutate = lambda case, rng: dc.mutate(case, rng) if case.startswith('dr') else []
